@@ -527,7 +527,7 @@ Definition dec_ck (z : Z) : option conn_kind :=
 Fixpoint dec_addrs (l : list sx) (i : nat) : option (list acfg) :=
   match l with
   | [] => Some []
-  | L [A fam; A cr; A ck] :: l' =>
+  | L (A fam :: A cr :: A ck :: _) :: l' =>      (* an optional 4th field selects the errno of the failures: the model does not care *)
       match dec_ck ck, dec_addrs l' (S i) with
       | Some k, Some rest => Some ({| a_id := i; a_fam := fam; a_create := Z.eqb cr 1; a_conn := k |} :: rest)
       | _, _ => None
